@@ -24,7 +24,7 @@ for _p, _t in [
  ("C05", "_contains of every primitive: one truth value per row; interior membership <=> the closed set (each point against its own parameter row); boundary membership accepts exact boundary points and rejects beyond the isclose tolerance band."),
  ("C10", "volume() = analytic measure (pi symbolic) per parameter row, positive for both orientations, boundary measures; density sampling returns exactly ceil(density*measure) rows (at most 2*ceil for the rejection-based triangle)."),
  ("C18", "bounding_box(): flat [min,max] per axis, encloses every point of every supplied parameter row (min/max over rows by their defining axioms), tight for one row; composition rules for union / intersection / cut / product / rotation over abstract operands; consumer clause: the Latin-hypercube proposals leave no slab of the box without a point on any axis (every box coordinate shares its slab with a proposal)."),
- ("C06", "normal(): row count, unit length, finiteness (non-zero divisors) and first-order outwardness at every exact boundary point for Interval, Circle, Sphere boundaries and (constant shapes, both vertex orientations, edges and corners; modular: _get_normal_direction under its own contract incl. its closed form, ghost un-normalised sum, strict Cauchy-Schwarz and normalisation as pure lemmas) Parallelogram- and TriangleBoundary; for the boundaries of unions / cuts / intersections over abstract operands: operand selection by boundary membership, sign flip of the cut-out part, unit length. Parameter-dependent polygons are not under contract; that the selected operand normal is outward for the composite is a locality argument (A7), not mechanised."),
+ ("C06", "normal(): row count, unit length, finiteness (non-zero divisors) and first-order outwardness at every exact boundary point for Interval, Circle, Sphere boundaries and (constant and parameter-dependent corners, both vertex orientations, edges and corners; modular: _get_normal_direction under its own contract incl. its closed form, ghost un-normalised sum, strict Cauchy-Schwarz, dot-product identity, sign and normalisation lemmas as pure obligations) Parallelogram- and TriangleBoundary; for the boundaries of unions / cuts / intersections over abstract operands: operand selection by boundary membership, sign flip of the cut-out part, unit length. that the selected operand normal is outward for the composite is a locality argument (A7), not mechanised."),
 ]:
     CLAIMED[_p] = dict(cat="proof", sec="DESIGN 4/" + _p, text=_t, note=GEO_NOTE, tech="contract-based deductive verification: VCs generated from the AST of the real source by a symbolic interpreter (tpv), discharged by z3 (nlsat on a sound QF_NRA weakening, cvc5 as second back end)")
 
